@@ -363,6 +363,7 @@ def wrapper_case(chk, im, s, nb):
     jax, jnp, onp = im.jax, im.jnp, im.onp
     from rex import rl
     r = random.Random(s["seed"] ^ 0x77)
+    s0 = s
     ne, od, ad = s["nenv"], s["obs_dim"], s["act_dim"]
     many = s["norm"] and r.random() < 0.5
     if many: ne = 130        # with many parallel envs a single outlier exceeds the clip although it enters the running statistics
@@ -382,7 +383,7 @@ def wrapper_case(chk, im, s, nb):
 
     env = rl.VecEnvWrapper(rl.SquashActionWrapper(Stub(), squash=s["squash"]))
     if s["norm"]: env = rl.NormalizeVecObservationWrapper(env)
-    case = dict(spec=dict(s, kind="wrapper"), obs_table=onp.asarray(t1).tolist())
+    case = dict(spec=dict(s0, kind="wrapper"), obs_table_head=onp.asarray(t1)[:4].tolist())
     try:
         gsv, nobs0, _ = env.reset(jnp.arange(ne))
         a0 = net.apply(params, nobs0)[0].mean()
@@ -391,16 +392,18 @@ def wrapper_case(chk, im, s, nb):
         _, _, _, _, _, info = env.step(gsv1, a1)                 # info["applied"]: what the environments received for them
         res = res0.replace(runner_state=res0.runner_state.replace(env_state=gsv1))
         pol = res.policy
-        got = onp.stack([onp.asarray(pol.get_action(t1[e])) for e in range(ne)])
+        idx = list(range(ne)) if ne <= 8 else [0, 1, 2, ne // 2, ne - 1]      # env 0 carries the outlier
+        got = onp.stack([onp.asarray(pol.get_action(t1[e])) for e in idx])
     except Exception as ex:  # noqa
         chk.violation(sig(s, "wrapper-path-raises"), f"training wrapper stack / exported policy raised: {type(ex).__name__}: {str(ex)[:200]}", case); return
-    chk.traces_impl += ne
+    chk.traces_impl += len(idx)
+    applied = onp.asarray(info["applied"])[idx]
     if s["norm"] and float(jnp.max(jnp.abs(nobs1))) >= 10.0: chk.feat("wrapper-stack-observation-clipped")
-    d = close(got, onp.asarray(info["applied"]))
+    d = close(got, applied)
     if d:
         chk.violation(sig(s, "wrapper-action-differs"), f"exported policy differs from the action the environment received through the training "
                       f"wrappers (observation wrapper -> actor mean -> SquashActionWrapper) for the same raw observation: {d}",
-                      dict(case, policy=got.tolist(), env_received=onp.asarray(info["applied"]).tolist()))
+                      dict(case, envs=idx, policy=got.tolist(), env_received=applied.tolist()))
 
 
 # ---------------------------------------------------------------- main
